@@ -90,6 +90,8 @@ fn main() {
         check(format!("rg {} absent tree nonexistent (no match + missing path)", j), &run(&rg, &dir, &[j, "absent", "tree", "nonexistent"]), 2, None, true, Some(false));
         check(format!("rg {} -q needle tree nonexistent (--quiet found a match)", j), &run(&rg, &dir, &[j, "-q", "needle", "tree", "nonexistent"]), 0, None, true, None);
         check(format!("rg {} '(' tree (invalid pattern)", j), &run(&rg, &dir, &[j, "(", "tree"]), 2, None, true, Some(false));
+        check(format!("rg {} --pre-glob '*.{{txt' needle tree (invalid glob flag, no --pre)", j), &run(&rg, &dir, &[j, "--pre-glob", "*.{txt", "needle", "tree"]), 2, None, true, Some(false));
+        check(format!("rg {} -g '*.{{txt' needle tree (invalid glob flag)", j), &run(&rg, &dir, &[j, "-g", "*.{txt", "needle", "tree"]), 2, None, true, Some(false));
         check(format!("rg {} --files tree nonexistent", j), &run(&rg, &dir, &[j, "--files", "tree", "nonexistent"]), 2, Some("hit.txt"), false, Some(false));
         if have_unreadable {
             // the unreadable file comes FIRST: the other files' results must still be there
